@@ -1490,3 +1490,7 @@ def run(ctx):
     from props import C16_global
 
     C16_global.run_suites(ctx, sys.modules[__name__])
+    # part 5: same-qubit Pauli products through every route, shared-object adiabatic histories, 9–11 qubits
+    from props import C16_forms
+
+    C16_forms.run_suites(ctx, sys.modules[__name__])
